@@ -595,6 +595,36 @@ struct DurMon {
       }
     }
   }
+  // whole seconds or coarser: parse floors arbitrary instants (not only multiples of the tick) toward the past
+  void parse_floor(sup::Rng& r) {
+    if (P::den != 1) return;
+    i128 num = P::num;
+    i128 lo = (i128)std::numeric_limits<Rep>::min() * num, hi = (i128)std::numeric_limits<Rep>::max() * num + (num - 1);
+    if (lo < orc::I64MIN + 86400) lo = orc::I64MIN + 86400;
+    if (hi > orc::I64MAX - 86400) hi = orc::I64MAX - 86400;
+    std::vector<i128> secs;
+    for (i128 s = -3 * num - 2; s <= 3 * num + 2; s += (num > 600 ? num / 37 + 1 : 1)) secs.push_back(s);
+    for (int k = -3; k <= 3; ++k)
+      for (int d : {-1, 0, 1}) secs.push_back((i128)k * num + d);
+    for (int i = 0; i < 300; ++i) secs.push_back(r.range(-40000000LL, 40000000LL));
+    for (int i = 0; i < 100; ++i) secs.push_back(-(i128)r.range(1, (int64_t)std::min<i128>(num * 50, 4000000000LL)));
+    for (i128 sec : secs) {
+      if (sec < lo || sec > hi) continue;
+      for (int fr = 0; fr < 2; ++fr) {
+        std::string txt = cctz::detail::format("%Y-%m-%d %H:%M:%E*S %E*z", mk((int64_t)sec), cctz::detail::femtoseconds(fr ? 999999999999999LL : 0), utc);
+        cctz::time_point<D> out;
+        ctx.set_case("class=%s op=parse-floor sec=%s text=%s", nm, S(sec).c_str(), txt.c_str());
+        bool ok = cctz::parse("%Y-%m-%d %H:%M:%E*S %E*z", txt, utc, &out);
+        i128 expc = orc::fdiv(sec, num);
+        ctx.stat("C18.evaluations");
+        ctx.stat("C18.coarse_parse_floor_cases");
+        if (sec < 0 && orc::fmod(sec, num) != 0) ctx.stat("C18.coarse_parse_negative_non_multiples");
+        if (!ok || (i128)out.time_since_epoch().count() != expc)
+          ctx.viol("C18", std::string("parse-not-floor:") + nm, std::string(nm) + " sec=" + S(sec) + " text='" + txt + "' ok=" + std::to_string(ok) + " got=" +
+                                                                   (ok ? S((i128)out.time_since_epoch().count()) : "-") + " expected=" + S(expc));
+      }
+    }
+  }
   void run(sup::Rng& r, long nrand) {
     i128 lo = std::numeric_limits<Rep>::min(), hi = std::numeric_limits<Rep>::max();
     i128 maxc = ((i128)INT64_MAX - 2) * P::den / P::num, minc = ((i128)INT64_MIN + 2) * P::den / P::num;
@@ -627,6 +657,7 @@ struct DurMon {
       one((Rep)c, zones[zi], zn[zi]);
     }
     parse_limits();
+    parse_floor(r);
   }
 };
 
